@@ -195,7 +195,7 @@ pub proof fn lemma_insert_sorted(before: Seq<usize>, after: Seq<usize>, x: usize
         !before.contains(x) ==> after != before,
     ensures
         sorted_strict(after), after.len() >= 1, after[0] == 0,
-        forall|y: usize| after.contains(y) <==> (before.contains(y) || y == x),
+        forall|y: usize| #![trigger after.contains(y)] #![trigger before.contains(y)] after.contains(y) <==> (before.contains(y) || y == x),
 {
     if after == before {
     } else {
@@ -224,4 +224,39 @@ pub proof fn lemma_lo_bounded(input: Seq<char>, lo: Seq<usize>)
         let k = choose|k: int| #[trigger] starts_line(input, k) && boff(input, k) == lo[i] as nat;
         lemma_boff_mono(input, k, input.len() as int);
     }
+}
+
+/// one step of a CharIndices iterator that stands before char n (its indices being relative to byte `off`)
+pub proof fn lemma_ci_seq_step(inp: Seq<char>, n: int, b: nat)
+    requires 0 <= n < inp.len()
+    ensures
+        ci_seq(inp.skip(n), b).len() > 0,
+        ci_seq(inp.skip(n), b)[0] == (b as usize, inp[n]),
+        ci_seq(inp.skip(n), b).drop_first() == ci_seq(inp.skip(n + 1), b + clen(inp[n])),
+{
+    let s = inp.skip(n);
+    let s1 = inp.skip(n + 1);
+    assert(s.take(0) =~= Seq::<char>::empty());
+    assert(s[0] == inp[n]);
+    assert forall|i: int| 0 <= i < s1.len() implies ci_seq(s, b).drop_first()[i] == ci_seq(s1, b + clen(inp[n]))[i] by {
+        assert(s.take(i + 1) =~= seq![inp[n]] + s1.take(i));
+        lemma_blen_add(seq![inp[n]], s1.take(i));
+        assert(seq![inp[n]].drop_last() =~= Seq::<char>::empty());
+        assert(blen(seq![inp[n]]) == clen(inp[n]));
+        assert(s[i + 1] == s1[i]);
+    }
+    assert(ci_seq(s, b).drop_first() =~= ci_seq(s1, b + clen(inp[n])));
+}
+
+pub proof fn lemma_ci_seq_empty(inp: Seq<char>, n: int, b: nat)
+    requires n == inp.len()
+    ensures ci_seq(inp.skip(n), b).len() == 0
+{
+}
+
+/// a line start at char index j is a line start as a byte offset
+pub proof fn lemma_line_start_byte(inp: Seq<char>, j: int)
+    requires starts_line(inp, j)
+    ensures is_line_start(inp, boff(inp, j))
+{
 }
